@@ -1339,7 +1339,7 @@ fn run_kind4(rt: &tokio::runtime::Runtime, p: &[u64]) -> Option<(Vec<u64>, Vec<u
     if p.len() != 3 || p[1] > 2 || p[2] > 2 {
         return None;
     }
-    let mut rng = Rng::new(p[0] ^ 0xC01_0004);
+    let mut rng = Rng::derive(p[0] ^ 0xC01_0004);
     let kd = keypair_from(&mut rng);
     let kl = keypair_from(&mut rng);
     let other = keypair_from(&mut rng);
@@ -1398,7 +1398,7 @@ fn run_kind6(rt: &tokio::runtime::Runtime, p: &[u64]) -> Option<(Vec<u64>, Vec<u
     if p.len() != 3 || p[1] > max_transport || !(1..=2).contains(&p[2]) {
         return None;
     }
-    let mut rng = Rng::new(p[0] ^ 0xC01_0006);
+    let mut rng = Rng::derive(p[0] ^ 0xC01_0006);
     let kd = keypair_from(&mut rng);
     let kl = keypair_from(&mut rng);
     let other = keypair_from(&mut rng);
